@@ -79,7 +79,7 @@ def run(ctx):
         junk = frag_junk_factory()
         for front in ('v2', 'legacy'):
             pc.stage_c(ctx, front, ctx.pick(250, 3000), 40, devs=c03.DEVS[front], report_devs=False, junk=junk,
-                       envs=('lp', 'lph', 'bare'), weights=dict(RecvNack=6, RecvData=6, RecvJunk=3, ValFinish=4))
+                       envs=('lp', 'lph', 'lpo', 'bare'), weights=dict(RecvNack=6, RecvData=6, RecvJunk=3, ValFinish=4))
         fc.stage_c(ctx, 'v2', ctx.pick(250, 3000), 40, names=fc.NAMES[1:],
                    weights=dict(RecvInterest=10, Reply=9, IntValFinish=5, Tick=2, Attach=3, AttachDup=0.2, Detach=0.5))
     codec_roundtrips(ctx)
